@@ -336,6 +336,12 @@ func (W *World) lookupType(fn *ssa.Function, name string) types.Type {
 			t = o.Type()
 		}
 	}
+	if t == nil && !strings.Contains(name, ".") {
+		// predeclared types: int, uint64, string, ...
+		if o, ok := types.Universe.Lookup(name).(*types.TypeName); ok {
+			t = o.Type()
+		}
+	}
 	if t == nil {
 		return nil
 	}
